@@ -86,14 +86,15 @@ theorem case_brace (l r : Token) (e : Expr) (ts : List Token) (hl : l.type = cTy
 theorem calleeTail_hit (m : Nat) (hasRoot : Bool) (rt : Nat) (root : Expr) (p1 : Option Token) (p : Token) (r : List Token)
     (hp : p.type = cTypeIdentifier) (ho : Y.InOrder (p :: r)) :
     calleeTail v (layoutOps Y) (m + 1) hasRoot rt root (S Y p1 (p :: r) false) =
-      .ok (.member 0 rt (if hasRoot then root else .nil) cMemberID (some (Y.idOf p)) .nil) (S Y (some p) r (Y.brk p (Y.peek r))) := by
+      .ok (.member (Y.sl p) rt (if hasRoot then root else .nil) cMemberID (some (Y.idOf p)) .nil)
+        (S Y (some p) r (Y.brk p (Y.peek r))) := by
   unfold calleeTail
   rw [bind_ok (tryConsume_hit m _ p1 p r (by simp [hp]) (by rw [hp]; decide) ho)]
   rfl
 
 /-- `其 p` -/
 theorem case_this (kw p : Token) (hk : kw.type = cTypeObjThisW) (hp : p.type = cTypeIdentifier) :
-    C7 v Y (.member 0 cRootTypeProp .nil cMemberID (some (Y.idOf p)) .nil) [kw, p] := by
+    C7 v Y (.member (Y.sl p) cRootTypeProp .nil cMemberID (some (Y.idOf p)) .nil) [kw, p] := by
   intro cm hcm p1 rest r n hn1 ho hg hs K n' hn
   obtain ⟨m, rfl⟩ : ∃ m, n' = m + 2 := ⟨n' - 2, by unfold D at hn; omega⟩
   have e0 : [kw, p] ++ (cm ++ rest) = kw :: p :: (cm ++ rest) := rfl
@@ -112,7 +113,7 @@ theorem case_this (kw p : Token) (hk : kw.type = cTypeObjThisW) (hp : p.type = c
 /-- `x 之 p` -/
 theorem case_dot (d p : Token) (r : Expr) (tr : List Token) (hd : d.type ∈ [cTypeObjDotW, cTypeObjDotIIW])
     (hp : p.type = cTypeIdentifier) (Cr : C7 v Y r tr) :
-    C7 v Y (.member 0 cRootTypeExpr r cMemberID (some (Y.idOf p)) .nil) (tr ++ [d, p]) := by
+    C7 v Y (.member (Y.sl p) cRootTypeExpr r cMemberID (some (Y.idOf p)) .nil) (tr ++ [d, p]) := by
   have hdc : d.type ≠ cTypeCommaSep := by
     intro h; rw [h] at hd; revert hd; decide
   have hdm : d.type ∈ [cTypeMapHash, cTypeObjDotW, cTypeObjDotIIW] := List.mem_cons_of_mem _ hd
